@@ -453,6 +453,9 @@ def run_failsub(job):
     elif outcome == 'configured':
         txt = open(os.path.join(bdir, 'build.ninja')).read()
         left = sorted(set(re.findall(r'[^\s:|]*(?:subprojects/opt|opt_)[^\s:|]*', txt)))
+        # the build-definition files the manifest regenerates on are existing source files: which of them are listed is C15's
+        # business (a failed subproject's meson.build HAS been read); a leftover is a name that only building could create
+        left = [x for x in left if not os.path.isfile(os.path.normpath(os.path.join(bdir, x.replace('$ ', ' '))))]
         if left:
             v.append(('C04:failsub:left-in-manifest', 'build.ninja still names %s of the subproject that failed' % left[:6]))
         for f in ('intro-targets.json', 'intro-tests.json', 'intro-benchmarks.json', 'intro-installed.json', 'intro-install_plan.json'):
